@@ -26,6 +26,11 @@ Section Setoid.
   Proof. intros a a' Ha. unfold nrm2. rewrite Ha. reflexivity. Qed.
 End Setoid.
 
+Lemma veq_intro {E : ips} (u v : E) : (forall w, inner u w = inner v w) -> veq u v.
+Proof. exact (fun H => H). Qed.
+Lemma veq_elim {E : ips} (u v : E) : veq u v -> forall w, inner u w = inner v w.
+Proof. exact (fun H => H). Qed.
+
 (** bilinear expansion, then a fixed orientation of every inner product of two atoms *)
 Ltac bilin :=
   unfold nrm2, vsub, vneg;
@@ -259,6 +264,6 @@ Ltac upd_red :=
     [prune], [oracle_leaf], [value_leaf] and the state helpers folded *)
 Ltac step_exec :=
   cbv [run run_full exec exec_s exec_body init_env mk_args a_scal a_fun a_pts a_dirs
-       setp setx setc add_point eval_rv map
+       setp setx setc e_p e_x e_c fst snd add_point eval_rv map
        pdefb xdefb cdefb sdefb andb negb seval];
-  cbn [e_p e_x e_c fst snd nth]; closed_Qeq; cbn [negb andb]; upd_red; cbn [nth].
+  cbn [nth]; closed_Qeq; cbn [negb andb]; upd_red; cbn [nth].
